@@ -396,7 +396,7 @@ C13_S(cfg, opts, ph, s) ==
      <<"C13.S.leaves", ph \in {"unplaced", "ready", "updated"} =>
           \A c \in Comps(cfg): IsTop(cfg, c) /\ TasksOf(cfg, c) # {}
                                /\ (\A t \in TasksOf(cfg, c): s.ts[t] = "FINISHED") =>
-             s.cp[c] = 0 /\ \A d \in Descendants(cfg, c): s.cp[d] = 0>>,
+             s.cp[c] = 0>>,
      <<"C13.S.site", Settled(ph) =>
           \A t \in Tasks(cfg): cfg.tasks[t].needF =>
              \A i \in DOMAIN s.af[t]: cfg.facs[s.af[t][i]].wp = s.cp[cfg.tasks[t].comp]>> >>
